@@ -17,6 +17,7 @@ import Proofs.C12_Lemmas
 import Proofs.C12_Cov
 import Proofs.C12_Analysis
 import Proofs.C12_Units
+import Proofs.C12_Miller
 import Mathlib.Tactic.Ring
 import Mathlib.Tactic.LinearCombination
 import Mathlib.Tactic.FieldSimp
